@@ -1,35 +1,75 @@
 (* Properties/C39.v — the integrity validator flags exactly the corrupted objects.
    Model: Model/Integrity.v.  [corrupted o]: some part of o is missing or its stored bytes' digests
-   differ from the recorded ones.  [recorded_by_put]: the object's ETag is the digest of its only part;
-   [recorded_by_multipart]: it is the multipart form of the recorded part ETags. *)
+   differ from the recorded ones.  Classes of recorded objects (Proofs/IntegrityProofs.v):
+     recorded_by_put     one part; ETag / CRC / SHA fields (where present) are the part's plain digests
+                         — PutObject, ranged CopyObject, full copies of those; any checksum type;
+     recorded_composite  type COMPOSITE; ETag md5-of-md5s "-N"; CRC / SHA (where present) digest-of-part-digests "-N"
+                         — multipart COMPOSITE and its full copies;
+     recorded_full       type FULL_OBJECT; ETag md5-of-md5s "-N"; CRC absent or the CRC-combine of the parts
+                         — multipart FULL_OBJECT / unspecified, AppendObject results, their full copies. *)
 From Verif Require Import Bytes Codec Integrity IntegrityProofs.
 Local Open Scope N_scope.
 
-(* validateObject reports an object iff it is corrupted — for objects written by PutObject and for
-   multipart / appended objects with a number of parts other than one *)
+(* EXACT classes (kind x checksum type): every PutObject-style object, and COMPOSITE / FULL_OBJECT /
+   append objects with a part count other than one: reported iff corrupted *)
 Theorem C39_flags_iff_mismatch_partial : forall o,
-  recorded_by_put o \/ (recorded_by_multipart o /\ length (parts o) <> 1%nat) ->
+  recorded_by_put o \/ ((recorded_composite o \/ recorded_full o) /\ length (parts o) <> 1%nat) ->
   (validate_object o = false <-> corrupted o).
 Proof. exact flags_iff_stmt. Qed.
 Print Assumptions C39_flags_iff_mismatch_partial.
 
-(* no false negatives at all: a corrupted object is reported whatever its ETag form *)
+(* the object kinds the storage writes (as built by the harness and the model: PutObject / ranged copy =
+   put_spec, multipart = multipart_spec with its type, AppendObject = append_spec; a full copy has the
+   source's record) are in these classes, for every state of the part files *)
+Theorem C39_kinds_in_classes : forall w,
+  (forall id, recorded_by_put (to_obj w (put_spec id))) /\
+  (forall ids, recorded_composite (to_obj w (multipart_spec TComp ids))) /\
+  (forall ids, recorded_full (to_obj w (multipart_spec TFull ids))) /\
+  (forall ids, recorded_full (to_obj w (append_spec ids))) /\
+  (forall s, length (parts (to_obj w s)) = length (sids s)).
+Proof. exact kinds_in_classes. Qed.
+Print Assumptions C39_kinds_in_classes.
+
+(* no false negatives at all: a corrupted object is reported whatever was recorded for it *)
 Theorem C39_corrupted_always_reported : forall o, corrupted o -> validate_object o = false.
 Proof. exact corrupted_reported. Qed.
 Print Assumptions C39_corrupted_always_reported.
 
+(* parts are shared (deduplication, full copies): a modified part file makes every object that
+   references it reported *)
+Theorem C39_shared_part_corrupts_all : forall w s id v,
+  In id (sids s) -> wfind w id = Some v -> (v = None \/ exists a, v = Some a /\ a <> id) ->
+  validate_object (to_obj w s) = false.
+Proof. exact shared_part_corrupts_all. Qed.
+Print Assumptions C39_shared_part_corrupts_all.
+
 (* the property for every object the storage can write *)
 Definition C39_flags_iff_mismatch_full : Prop := forall o,
-  recorded_by_put o \/ recorded_by_multipart o -> (validate_object o = false <-> corrupted o).
+  recorded_by_put o \/ recorded_composite o \/ recorded_full o -> (validate_object o = false <-> corrupted o).
 
-(* refuted: an intact multipart object with exactly one part is reported (its "...-1" ETag is compared
-   with the part's plain MD5) *)
+(* refuted: an intact object with a multipart-style ETag and exactly one part is reported (its "...-1"
+   ETag is compared with the part's plain MD5) — FULL_OBJECT / unspecified / append form *)
 Theorem C39_flags_iff_mismatch_full_refuted : ~ C39_flags_iff_mismatch_full.
 Proof.
-  intros H. destruct one_part_multipart_flagged as [R [F N]].
-  apply N. apply (H one_part_multipart); [right; exact R | exact F].
+  intros H. destruct one_part_flagged as [[R [F N]] _].
+  apply N. apply (H one_part_full); [right; right; exact R | exact F].
 Qed.
 Print Assumptions C39_flags_iff_mismatch_full_refuted.
+
+(* ... and the COMPOSITE form as well *)
+Theorem C39_one_part_composite_flagged :
+  recorded_composite one_part_composite /\ validate_object one_part_composite = false /\ ~ corrupted one_part_composite.
+Proof. exact (proj2 one_part_flagged). Qed.
+Print Assumptions C39_one_part_composite_flagged.
+
+(* a record that carries COMPOSITE values under the type FULL_OBJECT (what a copy that retypes the
+   checksum produces) is reported although the bytes are intact: the validator detects the inconsistent
+   record; every intact object in an exact class is clean, so such a report points at the writer *)
+Theorem C39_retyped_composite_reported : forall o,
+  recorded_composite o -> (2 <= length (parts o))%nat -> ocrc o = Some (Comp (recs o) (length (parts o))) ->
+  validate_object {| otype := TFull; oetag := oetag o; ocrc := ocrc o; osha := osha o; parts := parts o |} = false.
+Proof. exact retyped_composite_reported. Qed.
+Print Assumptions C39_retyped_composite_reported.
 
 (* ValidateAll, when it runs: one result per object, equal to validateObject's verdict; an object is
    deleted only in delete mode and only if it was reported *)
@@ -37,7 +77,7 @@ Theorem C39_deletes_only_flagged : forall l del objs rs,
   validate_all l del objs = Some rs ->
   length rs = length objs /\
   forall i, (i < length objs)%nat ->
-    fst (nth i rs (true, false)) = validate_object (nth i objs {| oetag := Multi []; parts := [] |}) /\
+    fst (nth i rs (true, false)) = validate_object (nth i objs dflt) /\
     (snd (nth i rs (true, false)) = true -> del = true /\ fst (nth i rs (true, false)) = false).
 Proof. exact deletes_only_flagged_stmt. Qed.
 Print Assumptions C39_deletes_only_flagged.
@@ -55,14 +95,14 @@ Theorem C39_validate_all_failed_before_fix : forall del objs, validate_all (L fa
 Proof. exact validate_all_failed_before_fix. Qed.
 Print Assumptions C39_validate_all_failed_before_fix.
 
-(* ValidateAll reports exactly the corrupted objects among those the partial theorem covers, and in
-   delete mode deletes exactly those *)
+(* ValidateAll reports exactly the corrupted objects among those of the exact classes, and in delete
+   mode deletes exactly those *)
 Theorem C39_validate_all_exact : forall del objs rs,
-  Forall (fun o => recorded_by_put o \/ (recorded_by_multipart o /\ length (parts o) <> 1%nat)) objs ->
+  Forall (fun o => recorded_by_put o \/ ((recorded_composite o \/ recorded_full o) /\ length (parts o) <> 1%nat)) objs ->
   validate_all current_layout del objs = Some rs ->
   length rs = length objs /\
   forall i, (i < length objs)%nat ->
-    let o := nth i objs {| oetag := Multi []; parts := [] |} in
+    let o := nth i objs dflt in
     (fst (nth i rs (true, false)) = false <-> corrupted o) /\
     (snd (nth i rs (true, false)) = true <-> corrupted o /\ del = true).
 Proof. exact validate_all_exact_stmt. Qed.
@@ -75,9 +115,13 @@ Proof. exact find_part_store_spec. Qed.
 Print Assumptions C39_find_part_store_spec.
 
 (* non-vacuity *)
-Example C39_ex_put_intact : validate_object {| oetag := Single 5; parts := [{| rec := 5; actual := Some 5 |}] |} = true.
+Example C39_ex_put_intact : validate_object (to_obj [] (put_spec 5)) = true.
 Proof. reflexivity. Qed.
-Example C39_ex_multi_flip : validate_object {| oetag := Multi [5; 6]; parts := [{| rec := 5; actual := Some 5 |}; {| rec := 6; actual := Some 9 |}] |} = false.
+Example C39_ex_composite_copy_intact : validate_object (to_obj [] (multipart_spec TComp [4; 6])) = true.
 Proof. reflexivity. Qed.
-Example C39_ex_delete : validate_all (L true []) true [{| oetag := Single 5; parts := [{| rec := 5; actual := None |}] |}] = Some [(false, true)].
+Example C39_ex_composite_flip : validate_object (to_obj [(6, Some 7)] (multipart_spec TComp [4; 6])) = false.
+Proof. reflexivity. Qed.
+Example C39_ex_retyped : validate_object (to_obj [] (tamper "t"%byte (multipart_spec TComp [4; 6]))) = false.
+Proof. reflexivity. Qed.
+Example C39_ex_delete : validate_all current_layout true [to_obj [(5, None)] (put_spec 5)] = Some [(false, true)].
 Proof. reflexivity. Qed.
